@@ -111,5 +111,14 @@ func setBases() [][]Op {
 // SetFamily is the set-command suite.
 func SetFamily() Family {
 	return Family{Name: "set", Alphabet: setAlphabet(), Bases: setBases(), AdvBases: []int{2},
-		Command: func(g *Gen, now int64) []string { return g.SetCommand() }}
+		Command: func(g *Gen, now int64) []string { return g.SetCommand() }, Scripts: setScripts()}
+}
+
+// setScripts: deterministic histories for deviations the random histories reach only with some seeds.
+func setScripts() [][][]string {
+	return [][][]string{
+		// three sets that intersect pairwise in two members and have no common member: whatever order the
+		// operand map is walked in, one half reaches LIMIT 1 and is returned as the answer
+		{{"sadd", "ta", "p", "q", "r", "s"}, {"sadd", "tb", "p", "q", "t", "u"}, {"sadd", "tc", "r", "s", "t", "u"}, {"sintercard", "ta", "tb", "tc", "limit", "1"}},
+	}
 }
